@@ -1,6 +1,7 @@
 """C19 - vector algebra and geometric queries: index tables and reduction offsets (no numerics)"""
 import re
 
+from .canon import ceq, eq_match
 from .extract import AnalysisBroken
 from .facts import as_assign, estr, need_names, unwrap, walk
 from .readers import strip_casts
@@ -306,7 +307,7 @@ def normal_attrib(ck, fb):
         elif name == "operator[]" and "HFH" in f.d["params"][0]["t"]:
             n += 1
             txt = " ".join(cn.s(x) for b, i, x in f.tops())
-            ok = "= -1" in txt and ("((P0.idx() % 2) == 1)" in txt or "(P0.subidx() == 1)" in txt) and ("f_normals_[face_handle(P0)] * v0" in txt or "f_normals_[P0.face_handle()] * v0" in txt)
+            ok = "= -1" in txt and (ceq("(P0.idx() % 2)", "1") in txt or ceq("P0.subidx()", "1") in txt) and ("f_normals_[face_handle(P0)] * v0" in txt or "f_normals_[P0.face_handle()] * v0" in txt)
             (ck.ok if ok else lambda r, w, t: ck.violate(r, w, t, "C19.normals:side"))("C19.normals", f.where, "operator[](halfface) = face normal, negated for the odd side")
     ck.floor("normal_attrib_functions", n, 4)
 
